@@ -387,6 +387,12 @@ func (wp *Pool) reportSSHConnected(inst cloud.Instance) {
 	wp.mtx.Lock()
 	defer wp.mtx.Unlock()
 	wkr := wp.workers[inst.ID()]
+	if wkr == nil {
+		// the instance was dropped from the pool (destroyed
+		// and gone from the cloud's list) while the SSH
+		// handshake was in progress
+		return
+	}
 	if wkr.state != StateBooting || !wkr.firstSSHConnection.IsZero() {
 		// the node is not in booting state (can happen if a-d-c is restarted) OR
 		// this is not the first SSH connection
